@@ -369,6 +369,8 @@ type JobRec struct {
 	ForcedSeq       int                    // event seq of a forced shutdown that found the job running
 	RacedShutdown   bool                   // accepted by a request that raced the start of a shutdown
 	MaybePurged     bool                   // its pipeline was undefined at some point after the accept: any save may purge the job, nothing is promised
+	PurgedSeq       int                    // event seq at which the harness first saw that the job is not reported any more (purged by a save while its pipeline was undefined)
+	PurgedStarted   bool                   // it had been started by then (it goes on executing, unreported); false: it was waiting and must never start
 	FailFast        bool                   // a task failed while fail-fast was in force
 	FailSeq         int                    // event seq of the first non-allowed task failure delivered
 	FailedTasks     map[string]bool        // tasks for which the harness delivered a non-allowed failure
